@@ -151,6 +151,10 @@ func Build(p *Project) (res *Built) {
 	var dir, rootPath string
 	if p.NeedsDisk() {
 		dir = filepath.Join(WorkDir(), fmt.Sprintf("p%d", buildSeq.Add(1)))
+		if p.FixedDir != "" {
+			dir = filepath.Join(WorkDir(), "fixed-"+p.FixedDir)
+			_ = os.RemoveAll(dir)
+		}
 		rp, err := p.Materialize(dir)
 		if err != nil {
 			panic("harness: cannot materialise project: " + err.Error())
@@ -186,8 +190,10 @@ func Build(p *Project) (res *Built) {
 			ee = append(ee, e)
 		}
 		if p.BanSplit {
+			// one option value per kind, created once per process and reused by every build (an application keeps such
+			// values in variables): an option must not be changed by the builds that use it
 			for _, e := range ee {
-				opts = append(opts, core.WithBannedDirectives(e))
+				opts = append(opts, banOptionOf(e))
 			}
 		} else {
 			opts = append(opts, core.WithBannedDirectives(ee...))
@@ -298,6 +304,10 @@ func BuildCore(p *Project) (c *core.JApiCore, out *Outcome, dir string, done fun
 	var rootPath string
 	if p.NeedsDisk() {
 		dir = filepath.Join(WorkDir(), fmt.Sprintf("p%d", buildSeq.Add(1)))
+		if p.FixedDir != "" {
+			dir = filepath.Join(WorkDir(), "fixed-"+p.FixedDir)
+			_ = os.RemoveAll(dir)
+		}
 		rp, err := p.Materialize(dir)
 		if err != nil {
 			panic("harness: cannot materialise project: " + err.Error())
@@ -320,8 +330,10 @@ func BuildCore(p *Project) (c *core.JApiCore, out *Outcome, dir string, done fun
 			ee = append(ee, e)
 		}
 		if p.BanSplit {
+			// one option value per kind, created once per process and reused by every build (an application keeps such
+			// values in variables): an option must not be changed by the builds that use it
 			for _, e := range ee {
-				opts = append(opts, core.WithBannedDirectives(e))
+				opts = append(opts, banOptionOf(e))
 			}
 		} else {
 			opts = append(opts, core.WithBannedDirectives(ee...))
@@ -350,4 +362,29 @@ func LineOf(content []byte, idx int) int {
 		return 0
 	}
 	return l
+}
+
+var (
+	banOptMu sync.Mutex
+	banOpts  = map[directive.Enumeration]core.Option{}
+)
+
+// BanOption returns the process-wide option value that bans one directive kind (by its name).
+func BanOption(name string) core.Option {
+	e, ok := BanEnum(name)
+	if !ok {
+		panic("harness: unknown directive name " + name)
+	}
+	return banOptionOf(e)
+}
+
+func banOptionOf(e directive.Enumeration) core.Option {
+	banOptMu.Lock()
+	defer banOptMu.Unlock()
+	o, ok := banOpts[e]
+	if !ok {
+		o = core.WithBannedDirectives(e)
+		banOpts[e] = o
+	}
+	return o
 }
